@@ -45,8 +45,11 @@ class Builtins:
         for i, kk in enumerate(keys):
             try:
                 same = self.key_eq_static(kk, k, node)
-            except _SymKey:
-                raise EngineError(f"dict store with a symbolic key (line {getattr(node, 'lineno', '?')})")
+            except _SymKey as sk:
+                # equality of the two keys depends on symbolic data: a branch of the path (not available in spec / merged evaluation)
+                if self.spec or self.ctx.no_branch:
+                    raise EngineError(f"dict store with a symbolic key (line {getattr(node, 'lineno', '?')})")
+                same = self.ctx.branch(sk.cond, f"dictkey@{getattr(node, 'lineno', 0)}")
             if same:
                 vals[i] = v
                 return
@@ -55,32 +58,39 @@ class Builtins:
 
     def dict_get(self, d, k, node, default=None, has_default=False):
         keys, vals = self.ctx.cell(d)
-        # symbolic key: first matching key in insertion order
-        conds = []
-        for kk in keys:
-            conds.append(z3.simplify(self.py_eq(kk, k, node)))
-        for c, v in zip(conds, vals):
+        # keys are compared in insertion order; a comparison that depends on symbolic data is a branch of the path
+        # (merged into an if-then-else in spec / merged evaluation)
+        merged = self.spec or self.ctx.no_branch
+        pending = []
+        for kk, v in zip(keys, vals):
+            c = z3.simplify(self.py_eq(kk, k, node))
             if z3.is_true(c):
-                return v
-            if not z3.is_false(c):
+                if not pending:
+                    return v
+                pending.append((c, v))
                 break
+            if z3.is_false(c):
+                continue
+            if merged:
+                pending.append((c, v))
+            elif self.ctx.branch(c, f"dictkey@{getattr(node, 'lineno', 0)}"):
+                return v
         else:
-            if has_default:
-                return default
-            if not self.spec:
-                self.ctx.oblige("safety.key_present", z3.BoolVal(False), node)
-            raise self.PyRaise(VExc("KeyError"), node)
-        # some key comparisons are symbolic
-        live = [(c, v) for c, v in zip(conds, vals) if not z3.is_false(c)]
-        anyc = z3.Or(*[c for c, _ in live])
-        if not has_default:
-            if not self.spec:
-                if not self.ctx.branch(anyc, f"dictkey@{getattr(node, 'lineno', 0)}"):
-                    raise self.PyRaise(VExc("KeyError"), node)
-            res = None
-        else:
+            if not pending:
+                if has_default:
+                    return default
+                if not self.spec:
+                    self.ctx.oblige("safety.key_present", z3.BoolVal(False), node)
+                raise self.PyRaise(VExc("KeyError"), node)
+        if has_default:
             res = default
-        for c, v in reversed(live):
+        else:
+            res = None
+            if not self.spec and not z3.is_true(pending[-1][0]):
+                anyc = z3.Or(*[c for c, _ in pending])
+                self.ctx.oblige("safety.key_present", anyc, node)
+                self.ctx.assume(anyc)
+        for c, v in reversed(pending):
             res = v if res is None else self.merge(c, v, res)
         return res
 
